@@ -28,8 +28,19 @@ pub fn exec_oracle(kind: &str, fields: &[&str]) -> String {
         "S_C08N" => oracle_c08n(fields),
         "S_C08O" => oracle_c08o(fields),
         "S_C08D" => oracle_c08d(fields),
+        "S_C04F" => oracle_c04f(fields),
         "S_C05" => oracle_c05(fields),
         "S_C06" => oracle_c06(fields),
+        "S_C07T" => oracle_c07t(fields),
+        "S_C18S" => oracle_c18s(fields),
+        "S_C19U" => oracle_c19u(fields),
+        "S_C16E" => {
+            let def = unescape(fields[0]);
+            match Minimal::default().op(&def) {
+                Ok(_) => format!("oracle FAIL {def} was accepted although one element of the series is not a number"),
+                Err(_) => "oracle pass".to_string(),
+            }
+        }
         "S_C09" => oracle_c09(fields),
         "S_C13" => oracle_c13(fields),
         "S_C14" => oracle_c14(fields),
@@ -933,6 +944,11 @@ fn oracle_c16(fields: &[&str]) -> String {
         if has_comments && t == &noisy {
             continue;
         }
+        // (continuation colons after a bare CR are the step splitter's business, like comments:
+        // `normalize` sees them as ordinary colons)
+        if t.contains("\r:") {
+            continue;
+        }
         let once = t.normalize();
         let twice = once.normalize();
         if once != twice {
@@ -1241,6 +1257,32 @@ fn oracle_c18t(fields: &[&str]) -> String {
     if let Some(p) = problems.first() {
         return format!("oracle FAIL {p} ({def})");
     }
+    // handles minted on different threads, in contexts of their own, are all different, and none
+    // of them resolves in a context it was not minted in
+    let minted: Vec<Vec<OpHandle>> = std::thread::scope(|s| {
+        let hs: Vec<_> = (0..4)
+            .map(|_| {
+                let def = def.clone();
+                s.spawn(move || {
+                    let mut c = Minimal::default();
+                    (0..3).filter_map(|_| c.op(&def).ok()).collect::<Vec<OpHandle>>()
+                })
+            })
+            .collect();
+        hs.into_iter().map(|h| h.join().unwrap_or_default()).collect()
+    });
+    let all: Vec<OpHandle> = minted.iter().flatten().copied().collect();
+    for (i, a) in all.iter().enumerate() {
+        for b in &all[i + 1..] {
+            if a == b {
+                return format!("oracle FAIL two instantiations (on different threads) share a handle ({def})");
+            }
+        }
+        let mut d = data.clone();
+        if ctx.apply(*a, Fwd, &mut d).is_ok() && *a != op {
+            return format!("oracle FAIL a handle minted in another context on another thread resolves here ({def})");
+        }
+    }
     "oracle pass".to_string()
 }
 
@@ -1458,7 +1500,8 @@ fn oracle_c20(fields: &[&str]) -> String {
                 continue;
             }
             maxcols = maxcols.max(words.len());
-            let v = |k: usize, default: f64| words.get(k).map(|w| angular::parse_sexagesimal(w)).unwrap_or(default);
+            // (the harness's own reading of a column, not the library's)
+            let v = |k: usize, default: f64| words.get(k).map(|w| ref_sexagesimal(w)).unwrap_or(default);
             let z = optf("z").unwrap_or(v(2, 0.0));
             let t = optf("t").unwrap_or(v(3, f64::NAN));
             tuples.push(Coor4D([v(0, 0.0), v(1, 0.0), z, t]));
@@ -1828,6 +1871,31 @@ fn oracle_c08d(fields: &[&str]) -> String {
         Ok(op) => op,
         Err(e) => return format!("oracle FAIL {def} not instantiable ({})", err_class(&e)),
     };
+    // the whole batch at once must give what the points give one by one (no state from point to point)
+    {
+        let inputs: Vec<Coor4D> = pts
+            .iter()
+            .map(|p| match kind {
+                "deformation" => Ellipsoid::default().cartesian(&Coor4D([p[0], p[1], 0., 2000.])),
+                "deflection" => Coor4D([p[1].to_degrees(), p[0].to_degrees(), 10., 2000.]),
+                _ => Coor4D([p[0], p[1], 10., 2000.]),
+            })
+            .collect();
+        for fwd in [true, false] {
+            if !fwd && kind == "deflection" {
+                continue;
+            }
+            let mut all = inputs.clone();
+            let _ = ctx.apply(op, if fwd { Fwd } else { Inv }, &mut all);
+            for (i, c) in inputs.iter().enumerate() {
+                let mut one = [*c];
+                let _ = ctx.apply(op, if fwd { Fwd } else { Inv }, &mut one);
+                if !same_bits(&one[0], &all[i]) {
+                    return format!("oracle FAIL {def}: point {i} gives ({}, {}, {}) in the batch but ({}, {}, {}) alone", all[i][0], all[i][1], all[i][2], one[0][0], one[0][1], one[0][2]);
+                }
+            }
+        }
+    }
     for p in pts {
         let eps = if kind == "deflection" { 1e-6 } else { 1e-9 };
         // expected grid: first containing at margin 0, then first within margin 0.5
@@ -2352,6 +2420,20 @@ fn oracle_c10(fields: &[&str]) -> String {
             Some('o') if n != 0 || !worked_nan => {
                 return format!("oracle FAIL {def} {dir}: tuple ({}, {}, {}, {}) outside the domain must be NaN and not counted (count {n}, result ({}, {}, {}))", p[0], p[1], p[2], p[3], o[0], o[1], o[2]);
             }
+            // 'v': whatever is counted must be right — the other direction takes it back to where
+            // it came from (first two elements, 1e-6 of their unit: 6 m in radians, 0.1 m in degrees)
+            // (forward with the null grid is exempt: a point of the margin band may be shifted out of the
+            // coverage, where the inverse rightly passes it unchanged)
+            Some('v') if n == 1 && !(fwd && def.contains("@null")) => {
+                if let Ok((1, back)) = run_kind(kind, &def, !fwd, &[o]) {
+                    // (an uncounted way back gives no verdict: the result may lie beyond the other direction's domain)
+                    let scale = p[0].abs().max(p[1].abs()).max(1.0);
+                    let wrap = |d: f64| d.abs().min((d.abs() - 360.0).abs()).min((d.abs() - std::f64::consts::TAU).abs());
+                    if !(wrap(back[0][0] - p[0]) < 1e-6 * scale && wrap(back[0][1] - p[1]) < 1e-6 * scale) {
+                        return format!("oracle FAIL {def} {dir}: tuple ({}, {}, {}, {}) is counted as a success, but its result ({}, {}, {}, {}) goes back to ({}, {}) in the other direction", p[0], p[1], p[2], p[3], o[0], o[1], o[2], o[3], back[0][0], back[0][1]);
+                    }
+                }
+            }
             Some('u') if n != 1 || !same_bits(&o, p) => {
                 return format!("oracle FAIL {def} {dir}: tuple ({}, {}) outside all grids must pass unchanged with the null grid (count {n})", p[0], p[1]);
             }
@@ -2814,6 +2896,13 @@ fn oracle_c06(fields: &[&str]) -> String {
     let es = e.eccentricity_squared();
     match kind {
         "table" => {
+            // the published numbers (PROJ's ellipsoid table), held here independently of the source
+            let Some(row) = PUBLISHED_ELLIPSOIDS.iter().find(|r| r.0 == fields[1]) else {
+                return format!("oracle FAIL {} is not among the published ellipsoids", fields[1]);
+            };
+            if a != row.1 || (row.2 != 0.0 && f != 1.0 / row.2) || (row.2 == 0.0 && f != 0.0) {
+                return format!("oracle FAIL {}: a = {a}, f = {f}, published a = {}, rf = {}", fields[1], row.1, row.2);
+            }
             let pa: f64 = fields[2].parse().unwrap_or(f64::NAN);
             let prf: f64 = fields[3].parse().unwrap_or(f64::NAN);
             if a.to_bits() != pa.to_bits() {
@@ -2856,7 +2945,7 @@ fn oracle_c06(fields: &[&str]) -> String {
                 // single step closed form: 1 cm
                 let d = ground_distance("geo3", &Coor4D([p[0], p[1], p[2], 0.]), &g) * (a / 6378137.0).min(1.0);
                 let polar = p[1].abs() > 1.5707;
-                if !(d < 1e-2) && !(polar && (g[1] - p[1]).abs() < 1e-9 && (g[2] - p[2]).abs() < 1e-2) {
+                if (!(d < 1e-2) && !polar) || (polar && !((g[1] - p[1]).abs() < 1e-9 && (g[2] - p[2]).abs() < 1e-2)) {
                     return format!("oracle FAIL {}: ({}, {}, {}) -> cartesian -> geographic comes back {:.3e} m away", fields[1], p[0], p[1], p[2], d);
                 }
                 // height zero: on the ellipsoid
@@ -2872,6 +2961,10 @@ fn oracle_c06(fields: &[&str]) -> String {
                         let d2 = ground_distance("geo3", &p, &g2[0]);
                         if !(d2 < 1e-6) && !polar {
                             return format!("oracle FAIL {def}: ({}, {}, {}) comes back {:.3e} m away", p[0], p[1], p[2], d2);
+                        }
+                        // at a pole the longitude is arbitrary, latitude and height are not
+                        if polar && !((g2[0][1] - p[1]).abs() < 1e-9 && (g2[0][2] - p[2]).abs() < 1e-6) {
+                            return format!("oracle FAIL {def}: the pole ({}, {}, {}) comes back as ({}, {}, {})", p[0], p[1], p[2], g2[0][0], g2[0][1], g2[0][2]);
                         }
                     }
                 }
@@ -3139,6 +3232,195 @@ fn oracle_c05(fields: &[&str]) -> String {
                 }
             }
         }
+    }
+    "oracle pass".to_string()
+}
+
+/// an invocation involving macros against the macro-free steps it stands for, applied one after
+/// the other as operators of their own (in reverse order for the inverse direction)
+fn oracle_c04f(fields: &[&str]) -> String {
+    let nres: usize = fields[0].parse().unwrap_or(0);
+    let mut resources = vec![];
+    for i in 0..nres {
+        resources.push((unescape(fields[1 + 2 * i]), unescape(fields[2 + 2 * i])));
+    }
+    let at = 1 + 2 * nres;
+    let inv = unescape(fields[at]);
+    let fwd = fields[at + 1] == "F";
+    let nseq: usize = fields[at + 2].parse().unwrap_or(0);
+    let seq: Vec<String> = (0..nseq).map(|i| unescape(fields[at + 3 + i])).collect();
+    let data = parse_data(fields[at + 3 + nseq]);
+    let spec = crate::exec::CtxSpec { kind: "default".to_string(), resources, users: vec![] };
+    crate::exec::with_ctx(&spec, |ctx| {
+        let op = match ctx.op(&inv) {
+            Ok(op) => op,
+            Err(e) => return format!("oracle FAIL {inv} not instantiable ({})", err_class(&e)),
+        };
+        let mut got = data.clone();
+        let n = ctx.apply(op, if fwd { Fwd } else { Inv }, &mut got).unwrap_or(usize::MAX);
+        let mut want = data.clone();
+        let mut m = usize::MAX;
+        let order: Vec<&String> = if fwd { seq.iter().collect() } else { seq.iter().rev().collect() };
+        for sdef in order {
+            let sop = match ctx.op(sdef) {
+                Ok(o) => o,
+                Err(e) => return format!("oracle FAIL step {sdef} not instantiable ({})", err_class(&e)),
+            };
+            m = m.min(ctx.apply(sop, if fwd { Fwd } else { Inv }, &mut want).unwrap_or(usize::MAX));
+        }
+        if got.iter().zip(want.iter()).any(|(a, b)| !same_bits(a, b)) {
+            return format!("oracle FAIL {inv} ({}): {} but the steps it stands for give {}", if fwd { "forward" } else { "inverse" }, dump_data(&got), dump_data(&want));
+        }
+        if n != m {
+            return format!("oracle FAIL {inv}: count {n}, the steps it stands for count {m}");
+        }
+        "oracle pass".to_string()
+    })
+}
+
+/// position_vector forward = coordinate_frame inverse for a pure rotation (the matrices are
+/// transposes of each other), and both keep lengths with `exact`
+fn oracle_c07t(fields: &[&str]) -> String {
+    let (pv, cf) = (unescape(fields[0]), unescape(fields[1]));
+    let pts = parse_data(fields[2]);
+    let exact = pv.contains(" exact");
+    let (Ok((_, a)), Ok((_, b))) = (run_kind("default", &pv, true, &pts), run_kind("default", &cf, false, &pts)) else {
+        return format!("oracle FAIL {pv} / {cf} not instantiable");
+    };
+    let (Ok((_, c)), Ok((_, d))) = (run_kind("default", &pv, false, &pts), run_kind("default", &cf, true, &pts)) else {
+        return format!("oracle FAIL {pv} / {cf} not instantiable");
+    };
+    for (i, p) in pts.iter().enumerate() {
+        for (x, y, what) in [(&a[i], &b[i], "position_vector forward vs coordinate_frame inverse"), (&c[i], &d[i], "position_vector inverse vs coordinate_frame forward")] {
+            let dist = (0..3).map(|j| (x[j] - y[j]).abs()).fold(0.0, f64::max);
+            if !(dist < 1e-6) {
+                return format!("oracle FAIL {what}: ({}, {}, {}) vs ({}, {}, {}) for {pv}", x[0], x[1], x[2], y[0], y[1], y[2]);
+            }
+        }
+        if exact {
+            let r0 = (p[0] * p[0] + p[1] * p[1] + p[2] * p[2]).sqrt();
+            let r1 = (a[i][0] * a[i][0] + a[i][1] * a[i][1] + a[i][2] * a[i][2]).sqrt();
+            if !((r0 - r1).abs() < 1e-6) {
+                return format!("oracle FAIL {pv}: an exact rotation changed the length of the position vector by {}", r1 - r0);
+            }
+        }
+    }
+    "oracle pass".to_string()
+}
+
+/// semi-major axis and reciprocal flattening as published (PROJ's `pj_ellps` table and the
+/// additions of this library)
+const PUBLISHED_ELLIPSOIDS: [(&str, f64, f64); 47] = [
+    ("MERIT", 6378137.0, 298.257), ("SGS85", 6378136.0, 298.257), ("GRS80", 6378137.0, 298.2572221008827), ("IAU76", 6378140.0, 298.257),
+    ("airy", 6377563.396, 299.3249646), ("APL4.9", 6378137.0, 298.25), ("NWL9D", 6378145.0, 298.25), ("mod_airy", 6377340.189, 299.3249373654824),
+    ("andrae", 6377104.43, 300.0), ("danish", 6377019.2563, 300.0), ("aust_SA", 6378160.0, 298.25), ("GRS67", 6378160.0, 298.2471674270),
+    ("GSK2011", 6378136.5, 298.2564151), ("bessel", 6377397.155, 299.1528128), ("bess_nam", 6377483.865, 299.1528128), ("clrk66", 6378206.4, 294.9786982138982),
+    ("clrk80", 6378249.145, 293.4663), ("clrk80ign", 6378249.2, 293.4660212936269), ("CPM", 6375738.7, 334.29), ("delmbr", 6376428.0, 311.5),
+    ("engelis", 6378136.05, 298.2566), ("evrst30", 6377276.345, 300.8017), ("evrst48", 6377304.063, 300.8017), ("evrst56", 6377301.243, 300.8017),
+    ("evrst69", 6377295.664, 300.8017), ("evrstSS", 6377298.556, 300.8017), ("fschr60", 6378166.0, 298.3), ("fschr60m", 6378155.0, 298.3),
+    ("fschr68", 6378150.0, 298.3), ("helmert", 6378200.0, 298.3), ("hough", 6378270.0, 297.0), ("intl", 6378388.0, 297.0),
+    ("krass", 6378245.0, 298.3), ("kaula", 6378163.0, 298.24), ("lerch", 6378139.0, 298.257), ("mprts", 6397300.0, 191.0),
+    ("new_intl", 6378157.5, 298.2496153900135), ("plessis", 6376523.0, 308.64099709583735), ("PZ90", 6378136.0, 298.25784), ("SEasia", 6378155.0, 298.3000002408657),
+    ("walbeck", 6376896.0, 302.78000018165636), ("WGS60", 6378165.0, 298.3), ("WGS66", 6378145.0, 298.25), ("WGS72", 6378135.0, 298.26),
+    ("WGS84", 6378137.0, 298.257223563), ("sphere", 6370997.0, 0.0), ("unitsphere", 1.0, 0.0),
+];
+
+/// what a coordinate column stands for: a real number, or degrees[:minutes[:seconds]] with an
+/// optional N/S/E/W suffix; the sign is that of the degrees as written (`-0` is negative) times
+/// that of the suffix
+fn ref_sexagesimal(w: &str) -> f64 {
+    let w = w.trim();
+    if w.is_empty() || w == "NaN" {
+        return f64::NAN;
+    }
+    let (body, suffix) = match w.chars().last() {
+        Some(c) if "wWsS".contains(c) => (&w[..w.len() - c.len_utf8()], -1.0),
+        Some(c) if "eEnN".contains(c) => (&w[..w.len() - c.len_utf8()], 1.0),
+        _ => (w, 1.0),
+    };
+    let parts: Vec<&str> = body.split(':').collect();
+    if parts.len() > 3 {
+        return f64::NAN;
+    }
+    let mut v = [0.0f64; 3];
+    for (i, p) in parts.iter().enumerate() {
+        match p.parse::<f64>() {
+            Ok(x) => v[i] = x,
+            Err(_) => return f64::NAN,
+        }
+    }
+    let negative = v[0].is_sign_negative();
+    let mag = v[0].abs() + (v[1] + v[2] / 60.0) / 60.0;
+    if v[0].is_nan() {
+        return f64::NAN;
+    }
+    suffix * if negative { -mag } else { mag }
+}
+
+/// registering a macro name again replaces its definition for instantiations made afterwards;
+/// handles made before keep their behaviour
+fn oracle_c18s(fields: &[&str]) -> String {
+    let spec = crate::exec::CtxSpec { kind: fields[0].to_string(), resources: vec![], users: vec![] };
+    let (name, body1, body2) = (unescape(fields[1]), unescape(fields[2]), unescape(fields[3]));
+    let probe = vec![Coor4D([1., 2., 3., 4.]), Coor4D([-5., 0.25, 1e3, 2020.])];
+    crate::exec::with_ctx(&spec, |ctx| {
+        let run = |ctx: &dyn Context, h: OpHandle| -> String {
+            let mut d = probe.clone();
+            let n = ctx.apply(h, Fwd, &mut d).unwrap_or(usize::MAX);
+            format!("{n} {}", dump_data(&d))
+        };
+        ctx.register_resource(&name, &body1);
+        let Ok(h1) = ctx.op(&name) else { return format!("oracle FAIL {name} = {body1} not instantiable") };
+        let Ok(d1) = ctx.op(&body1) else { return "oracle skip".to_string() };
+        let before = run(ctx, h1);
+        if before != run(ctx, d1) {
+            return format!("oracle FAIL {name} does not behave like its definition {body1}");
+        }
+        ctx.register_resource(&name, &body2);
+        let Ok(h2) = ctx.op(&name) else { return format!("oracle FAIL {name} = {body2} not instantiable after re-registration") };
+        let Ok(d2) = ctx.op(&body2) else { return "oracle skip".to_string() };
+        if run(ctx, h2) != run(ctx, d2) {
+            return format!("oracle FAIL after registering {name} again as '{body2}' a new instantiation still behaves like '{body1}'");
+        }
+        if run(ctx, h1) != before {
+            return format!("oracle FAIL the handle made before the re-registration of {name} changed its behaviour");
+        }
+        "oracle pass".to_string()
+    })
+}
+
+/// the angular unit conversions of a tuple touch the angular elements only, agree with the
+/// dimension-specific accessors, and undo each other
+fn oracle_c19u(fields: &[&str]) -> String {
+    let v: Vec<f64> = fields[0].split(',').map(parse_f).collect();
+    let c = Coor4D([v[0], v[1], v[2], v[3]]);
+    let deg = c.to_degrees();
+    let sec = c.to_arcsec();
+    let rad = deg.to_radians();
+    let same = |a: f64, b: f64| a.to_bits() == b.to_bits() || (a.is_nan() && b.is_nan());
+    if !same(deg[2], c[2]) || !same(deg[3], c[3]) || !same(sec[2], c[2]) || !same(sec[3], c[3]) || !same(rad[2], c[2]) || !same(rad[3], c[3]) {
+        return format!("oracle FAIL a unit conversion of ({}, {}, {}, {}) changed the height or the time: degrees {:?}, arc seconds {:?}", v[0], v[1], v[2], v[3], deg.0, sec.0);
+    }
+    let close = |a: f64, b: f64| same(a, b) || (a - b).abs() <= 1e-12 * a.abs().max(b.abs());
+    if !close(sec[0], c[0].to_degrees() * 3600.0) || !close(sec[1], c[1].to_degrees() * 3600.0) || !close(deg[0], c[0].to_degrees()) || !close(rad[0], c[0]) || !close(rad[1], c[1]) {
+        return format!("oracle FAIL unit conversions of ({}, {}) disagree with the scalar conversions", v[0], v[1]);
+    }
+    let (lon, lat, h) = c.xyz_to_arcsec();
+    if !same(lon, sec[0]) || !same(lat, sec[1]) || !same(h, sec[2]) {
+        return format!("oracle FAIL to_arcsec and xyz_to_arcsec disagree on ({}, {}, {})", v[0], v[1], v[2]);
+    }
+    let (dlon, dlat, dh, dt) = c.xyzt_to_degrees();
+    if !same(dlon, deg[0]) || !same(dlat, deg[1]) || !same(dh, deg[2]) || !same(dt, deg[3]) {
+        return format!("oracle FAIL to_degrees and xyzt_to_degrees disagree on ({}, {}, {}, {})", v[0], v[1], v[2], v[3]);
+    }
+    let back = Coor4D::arcsec(sec[0], sec[1], sec[2], sec[3]);
+    if !close(back[0], c[0]) || !close(back[1], c[1]) || !same(back[2], c[2]) || !same(back[3], c[3]) {
+        return format!("oracle FAIL Coor4D::arcsec does not undo to_arcsec on ({}, {}, {}, {})", v[0], v[1], v[2], v[3]);
+    }
+    let c3 = Coor3D([v[0], v[1], v[2]]);
+    let s3 = c3.to_arcsec();
+    if !same(s3[2], c3[2]) || !same(s3[0], sec[0]) {
+        return format!("oracle FAIL Coor3D::to_arcsec of ({}, {}, {}) gives {:?}", v[0], v[1], v[2], s3.0);
     }
     "oracle pass".to_string()
 }
